@@ -9,6 +9,7 @@ from repid.connections.redis.utils import (
     get_priorities_order,
     get_queue_marker,
     mnc,
+    parse_message_name,
     parse_short_message_name,
     qnc,
     unix_time,
@@ -46,6 +47,11 @@ class _RedisConsumer(ConsumerT):
         )
         self.pause_lock = asyncio.Lock()
         self.consume_task: asyncio.Task | None = None
+        # what the background task has taken from the server (marked as processing there)
+        # and has not put into the local buffer yet
+        self._taken: tuple[str, str] | None = None  # short message name, full queue name
+        self._take_task: asyncio.Future[bool] | None = None
+        self._in_hand: RoutingKeyT | None = None
 
     async def start(self) -> None:
         self.consume_task = asyncio.create_task(self.backgroud_consume())
@@ -61,7 +67,26 @@ class _RedisConsumer(ConsumerT):
     async def finish(self) -> None:
         if self.consume_task is not None:
             self.consume_task.cancel()
+            await asyncio.gather(self.consume_task, return_exceptions=True)
+        if self._take_task is not None:
+            await asyncio.gather(self._take_task, return_exceptions=True)
         rejects = []
+        # the background task may have been cancelled between taking a message and putting it
+        # into the buffer: give that message back as well, it must not stay marked as processing
+        if self._taken is not None:
+            id_, topic, queue, priority = parse_message_name(
+                full_message_name_from_short(*self._taken),
+            )
+            self._in_hand = self.broker.ROUTING_KEY_CLASS(
+                id_=id_,
+                topic=topic,
+                queue=queue,
+                priority=priority,
+            )
+            self._taken = None
+        if self._in_hand is not None:
+            rejects.append(self.broker.reject(self._in_hand))
+            self._in_hand = None
         while self.queue.qsize() > 0:
             key, _, _ = self.queue.get_nowait()
             rejects.append(self.broker.reject(key))
@@ -83,7 +108,9 @@ class _RedisConsumer(ConsumerT):
                 self.pause_lock.release()
             msg = await self.consume_or_none()
             if msg is not None:
+                self._in_hand = msg[0]
                 await self.queue.put(msg)
+                self._in_hand = None
             else:
                 await asyncio.sleep(self.POLLING_WAIT)
 
@@ -97,8 +124,11 @@ class _RedisConsumer(ConsumerT):
             # only normal consumption dead-letters expired messages:
             # the dead and delayed categories hand out what they find
             if self.category == MessageCategory.NORMAL and params.is_overdue:
-                await self.broker.nack(key)
+                # from here on the message is the nack's: it runs to its end whatever happens to us
+                self._taken = None
+                await asyncio.shield(self.broker.nack(key))
                 continue
+            self._taken = None
             return msg
         return None
 
@@ -187,6 +217,30 @@ class _RedisConsumer(ConsumerT):
                     return str_name
         return None
 
+    async def __take(self, msg_short_name: str, full_queue_name: str, *, delayed: bool) -> bool:
+        async with self.conn.pipeline(transaction=True) as pipe:
+            # remove message from the queue
+            if not delayed:
+                pipe.lrem(full_queue_name, -1, msg_short_name)
+            else:
+                pipe.zrem(full_queue_name, msg_short_name)
+            # mark message as processing
+            self.__mark_processing(msg_short_name, full_queue_name, pipe)
+            try:
+                await pipe.execute()
+            except Exception:  # pragma: no cover  # noqa: BLE001
+                return False
+        self._taken = (msg_short_name, full_queue_name)
+        return True
+
+    async def __bury(self, msg_short_name: str) -> None:
+        async with self.conn.pipeline(transaction=True) as pipe:
+            # remove from the processing queue
+            pipe.zrem(self.broker.processing_queue, msg_short_name)
+            # put to the dead queue
+            pipe.lpush(qnc(self.queue_name, dead=True), msg_short_name)
+            await pipe.execute()
+
     def __mark_processing(self, msg_short_name: str, full_queue_name: str, pipe: Pipeline) -> None:
         pipe.zadd(self.broker.processing_queue, {msg_short_name: str(unix_time())})
         pipe.hset(
@@ -212,18 +266,14 @@ class _RedisConsumer(ConsumerT):
         )
         if msg_short_name is None:
             return None
-        async with self.conn.pipeline(transaction=True) as pipe:
-            # remove message from the queue
-            if not delayed:
-                pipe.lrem(full_queue_name, -1, msg_short_name)
-            else:
-                pipe.zrem(full_queue_name, msg_short_name)
-            # mark message as processing
-            self.__mark_processing(msg_short_name, full_queue_name, pipe)
-            try:
-                await pipe.execute()
-            except Exception:  # pragma: no cover  # noqa: BLE001
-                return None
+        # the removal-and-marking runs in a task of its own, shielded from the cancellation of the
+        # caller: when `finish()` cancels the background task in the middle of it, it still runs to
+        # its end and `finish()` knows what was taken (and gives it back)
+        self._take_task = asyncio.ensure_future(
+            self.__take(msg_short_name, full_queue_name, delayed=delayed),
+        )
+        if not await asyncio.shield(self._take_task):
+            return None
         return msg_short_name
 
     async def __get_message_normal(
@@ -327,12 +377,8 @@ class _RedisConsumer(ConsumerT):
         if payload is None or parameters is None:  # pragma: no cover
             # message's data was removed (but somehow id was present in the queue :shrug:)
             # - put it to the dead queue
-            async with self.conn.pipeline(transaction=True) as pipe:
-                # remove from the processing queue
-                pipe.zrem(self.broker.processing_queue, msg_short_name)
-                # put to the dead queue
-                pipe.lpush(qnc(self.queue_name, dead=True), msg_short_name)
-                await pipe.execute()
+            self._taken = None
+            await asyncio.shield(self.__bury(msg_short_name))
             # retry
             return None
         return (
